@@ -1,6 +1,6 @@
 HOOK_COMMITS = ["bc7826eeb31079b932557c6566a10da9b9acc9ce"]
 _PENDING = "check not built yet in this round (planned, see DESIGN.md section 9); not a statement that the technique cannot apply"
-NOT_APPLICABLE = {p: _PENDING for p in ["C05"]}
+NOT_APPLICABLE = {}
 TEXT = {
  "C17": {
   "text": "Lean mirror of integer.h / dyadic_rational.h / rational.h; theorems for every modulus m>=2 and every operand state that each "
@@ -98,6 +98,22 @@ TEXT = {
   "design_ref": "5.19",
   "note": "clause (c) is runtime monitoring on generated inputs, not proof (no executable Lean model can exhibit out-of-bounds access); variable_db/variable_order counters are opaque and observed only via sanitizers",
   "technique": "Lean 4 invariant proof (refcount protocol) + correspondence with aliased/pre-used outputs + sanitizer monitoring",
+ },
+ "C05": {
+  "text": "Every factorization returned by lp_upolynomial_factor_square_free, lp_upolynomial_factor (Z and Z_p), "
+          "lp_polynomial_factor_square_free and lp_polynomial_factor_content_free is judged per output: exact product of constant and "
+          "factors with multiplicities (proved: the list arithmetic is a ring homomorphism into Z[X], so an accepted product check is "
+          "an identity there: C05_product_sound); every factor square-free and distinct factors coprime by verified Bezout "
+          "certificates over Q / F_p (proved over Q: an accepted certificate implies Squarefree / IsCoprime: C05_sqfree_cert_sound, "
+          "C03_coprimeCert_sound) or, multivariate, by non-vanishing discriminants / resultants in every variable (reference of C04); "
+          "full factorization over F_p compared with the model's complete trial-division factorization (monic factors, "
+          "multiplicities); full factorization over Z compared with the irreducible blocks the input was built from, each block "
+          "re-certified irreducible on every line (irreducible modulo a prime not dividing the leading coefficient, or Kronecker), a "
+          "reducible returned factor is reported with the block that divides it. Not formalised: the irreducibility criteria and the "
+          "use of unique factorization.",
+  "design_ref": "5.5",
+  "note": "KNOWN FINDING D28 (not repaired): lp_upolynomial_factor over Z with a non-monic primitive part returns reducible factors; found and fixed: two memory leaks in the Z factorization",
+  "technique": "Lean 4 proved certificate soundness (product homomorphism, Bezout => squarefree / coprime) + per-output validation of the C results",
  },
  "C16": {
   "text": "Bound inference: for A = sum_k (a_k x_k^2 + b_k x_k) + c with all a_k of one sign the validator decides every claim exactly: "
